@@ -36,6 +36,7 @@ def run(prog, chk):
     chk.decided += ["feature-writer objects keep no per-font state outside self.context (no memoising decorators, no attributes written outside __init__): a kern writer object reused for a second font must not split base / mark pairs with the first font's mark set (R05.13 = R08.7)"]
     chk.decided += ["no kern-writer function answers from a dictionary it also fills under a key that is only one element of the collection the answer depends on (a class 'identified' by its first glyph: "
                     "a first-side and a second-side class may share it) (R05.14)"]
+    chk.decided += ["the bidi classes the kern writers split pairs by are disjoint on alternates of neutral glyphs: classifyGlyphs closes the neutral set over GSUB before taking it out of each class closure (R05.15 = R18.11)"]
     chk.not_decided += ["what a shaper applies", "that common and script lookups never both hold the same glyph pair", "script / bidi classification of glyphs", "the kerning values themselves"]
     chk.guard(r051, prog, chk)
     chk.guard(r052, prog, chk)
@@ -53,6 +54,8 @@ def run(prog, chk):
     from .c08 import r087
     chk.guard(r087, prog, chk, "R05.13")
     chk.guard(check_no_partial_key_memo, prog, chk, "R05.14")
+    from .c18 import check_neutral_closure
+    chk.guard(check_neutral_closure, prog, chk, "R05.15")
 
 
 # ----------------------------------------------------------------------------- R05.1
@@ -774,6 +777,8 @@ def check_no_partial_key_memo(prog, chk, rule, modules=("ufo2ft.featureWriters",
 
 
 MUTANTS = [
+    M("neutral glyphs no longer closed over GSUB on their own: their alternates land in both bidi classes (seeded C05o)", "ufo2ft/util.py", "classifyGlyphs",
+      "if neutralGlyphs:\n    closeGlyphsOverGSUB(gsub, neutralGlyphs)", "pass", rule="R05.15"),
     M("class split cached under the class's first glyph, one cache for both sides (seeded C05n)", "ufo2ft/featureWriters/kernFeatureWriter.py", "", "<append-module>",
       "_SPLITS = {}\ndef splitClassByMarks(glyphs, marks, cache=_SPLITS):\n    key = glyphs[0]\n    if key in cache:\n        return cache[key]\n    cache[key] = (tuple(g for g in glyphs if g not in marks), tuple(g for g in glyphs if g in marks))\n    return cache[key]\n", rule="R05.14"),
     M("mark set of the kern writer memoised with cached_property (seeded C05m)", "ufo2ft/featureWriters/kernFeatureWriter.py", "KernFeatureWriter.getKerningData",
